@@ -307,7 +307,9 @@ func printField(sb *stringBuilder, f *parser.Field) {
 
 func printConstTypedValue(sb *stringBuilder, ctv *parser.ConstTypedValue) {
 	if ctv.Double != nil {
-		sb.writeString(strconv.FormatFloat(*ctv.Double, 'f', -1, 64))
+		// 'g' switches to an exponent for large values: written without one, an
+		// integral double beyond the int64 range is rejected as an integer constant
+		sb.writeString(strconv.FormatFloat(*ctv.Double, 'g', -1, 64))
 	} else if ctv.Int != nil {
 		sb.writeString(fmt.Sprintf("%d", *ctv.Int))
 	} else if ctv.Literal != nil {
